@@ -181,6 +181,24 @@ func runC16(c *Ctx) {
 				}
 			}
 			sel = u
+			// the mandatory list itself in any order (it is kept as written; packing sorts a copy)
+			var keys []string
+			for _, p := range sel {
+				key := strings.SplitN(p, "=", 2)[0]
+				if key != "mandatory" && key != "no-default-alpn" {
+					keys = append(keys, key)
+				}
+			}
+			for a := len(keys) - 1; a > 0; a-- {
+				b := r.Intn(a + 1)
+				keys[a], keys[b] = keys[b], keys[a]
+			}
+			keys = keys[:1+r.Intn(len(keys))]
+			for i2, p := range sel {
+				if strings.HasPrefix(p, "mandatory") {
+					sel[i2] = "mandatory=" + strings.Join(keys, ",")
+				}
+			}
 		}
 		txt := fmt.Sprintf("svc.example. 3600 IN %s 1 target.example. %s", []string{"SVCB", "HTTPS"}[r.Intn(2)], strings.Join(sel, " "))
 		rr, err := dns.NewRR(txt)
